@@ -127,6 +127,16 @@ def gen_texts(rng, tier):
         yield 'deep', '-' * n + '1'
         yield 'deep', '1' + ' + 1' * n
         yield 'deep', 'f(' * n + ')' * n
+    # far deeper than any interpreter stack: the parser is iterative, the depth of a text is no reason to fail; these
+    # are parsed under the interpreter's DEFAULT recursion limit and only classified (no tree is compared)
+    for n in [600, 1500, 4000] + ([12000] if tier == 'thorough' else []):
+        yield 'deepx', '(' * n + '1' + ')' * n
+        yield 'deepx', '[' * n + ']' * n
+        yield 'deepx', '- ' * n + '1'
+        yield 'deepx', '1' + ' + 1' * n
+        yield 'deepx', 'f(' * n + ')' * n
+        yield 'deepx', '$' + '.a' * n
+        yield 'deepx', '{a => ' * n + '1' + '}' * n
     # arbitrary code points incl. astral and lone surrogates
     for _ in range(800 * n3):
         k = rng.randrange(1, 8)
@@ -247,11 +257,14 @@ def run(env, res):
                 continue
             signal.alarm(20)
             try:
+                if kind == 'deepx':
+                    sys.setrecursionlimit(1000)
                 out = outcome(eng, text)
             except Timeout:
                 out = ('timeout',)
             finally:
                 signal.alarm(0)
+                sys.setrecursionlimit(10000)
             kinds[kind] = kinds.get(kind, 0) + 1
             hist[out[0]] = hist.get(out[0], 0) + 1
             res.case((ename, text), nontrivial=out[0] != 'ok',
